@@ -1,4 +1,5 @@
 import BlackIt.Properties.C03
+import BlackIt.Lemmas.Pso
 import Mathlib.Data.List.Perm.Basic
 import Mathlib.Data.List.Nodup
 import Mathlib.Data.List.Range
@@ -169,3 +170,267 @@ example : applyShocks (fun n => (n : Int)) [1, 2] [0, 0] [10, 10] 0 [5, 5] [⟨1
 end Examples
 
 end BlackIt.Samplers
+
+
+/-!
+## Particle swarm: the whole sampler (`BlackIt/Model/Pso.lean`, tied bit for bit to `ParticleSwarmSampler` by `harness/props/pso_model.py`)
+
+What the swarm reads from the history, for every sequence of calls, every history, every draw of its generator and every option:
+its personal bests are the best of the losses recorded *in each particle's own slot* of the history (and the matching row), its
+global-best index always points at a smallest personal best, and after a step every position lies in the unit cube, so that the
+raw proposal lies within the declared bounds before it is snapped.
+-/
+namespace BlackIt.Pso
+open BlackIt.Samplers
+
+section Reads
+variable {α β : Type} [LinearOrder β]
+
+/-- the rows of the history `_update_best` looks at: slot `j` of the swarm's previous batch -/
+def ownSlot (bs : Nat) (s : Swarm α β) (points : List (List α)) (losses : List β) (j : Nat) : Option (List α × β) :=
+  (((points.drop s.prevStart).take bs).zip ((losses.drop s.prevStart).take bs))[j]?
+
+/-- a slot that is read is a row of the history, at the index where the swarm's own batch `j` was recorded -/
+theorem ownSlot_is_history_row (bs : Nat) (s : Swarm α β) (points : List (List α)) (losses : List β) (j : Nat) (p : List α) (l : β)
+    (h : ownSlot bs s points losses j = some (p, l)) :
+    j < bs ∧ points[s.prevStart + j]? = some p ∧ losses[s.prevStart + j]? = some l := by
+  unfold ownSlot at h
+  rw [List.getElem?_zip_eq_some] at h
+  obtain ⟨h1, h2⟩ := h
+  simp only [List.getElem?_take, List.getElem?_drop] at h1 h2
+  split at h1
+  · exact ⟨‹j < bs›, h1, by simpa [‹j < bs›] using h2⟩
+  · cases h1
+
+/-- **personal-best losses**: after `_update_best`, particle `j`'s personal-best loss is the smaller of what it was and the loss
+recorded in its own slot; a particle whose slot is not in the history keeps its value -/
+theorem updateBest_bestLoss (bs : Nat) (s : Swarm α β) (points : List (List α)) (losses : List β) (j : Nat) :
+    (updateBest bs s points losses).bestLoss[j]? =
+      match ownSlot bs s points losses j with
+      | some pl => (s.bestLoss[j]?).map (fun bl => min bl pl.2)
+      | none => s.bestLoss[j]? := by
+  unfold updateBest ownSlot
+  dsimp only
+  have key := updateLoop_bestLoss ({ s with bestPoint := points[argmin losses]? }) 0
+    (((points.drop s.prevStart).take bs).zip ((losses.drop s.prevStart).take bs)) j
+  simp only [Nat.zero_le, if_true, Nat.sub_zero] at key
+  split <;> exact key
+
+/-- personal-best losses never increase -/
+theorem updateBest_bestLoss_antitone (bs : Nat) (s : Swarm α β) (points : List (List α)) (losses : List β) (j : Nat) (bl' : β)
+    (h : (updateBest bs s points losses).bestLoss[j]? = some bl') : ∃ bl, s.bestLoss[j]? = some bl ∧ bl' ≤ bl := by
+  rw [updateBest_bestLoss] at h
+  split at h
+  · cases hb : s.bestLoss[j]? with
+    | none => simp [hb] at h
+    | some bl =>
+      simp only [hb, Option.map_some, Option.some.injEq] at h
+      exact ⟨bl, rfl, h ▸ min_le_left _ _⟩
+  · exact ⟨bl', h, le_refl _⟩
+
+/-- **personal-best positions come from the particle's own slot**: after `_update_best`, either particle `j` keeps its personal
+best (position and loss), or both are exactly the row and the loss the history holds at `previous_batch_index_start + j`, and that
+loss is strictly below the old personal best -/
+theorem updateBest_personal_best_from_own_slot (bs : Nat) (s : Swarm α β) (points : List (List α)) (losses : List β) (j : Nat)
+    (hwf : s.bestPos.length = s.bestLoss.length) :
+    ((updateBest bs s points losses).bestPos[j]? = s.bestPos[j]? ∧ (updateBest bs s points losses).bestLoss[j]? = s.bestLoss[j]?) ∨
+    (∃ p l bl, j < bs ∧ points[s.prevStart + j]? = some p ∧ losses[s.prevStart + j]? = some l ∧ s.bestLoss[j]? = some bl ∧ l < bl ∧
+      (updateBest bs s points losses).bestPos[j]? = some p ∧ (updateBest bs s points losses).bestLoss[j]? = some l) := by
+  have hloss := updateBest_bestLoss bs s points losses j
+  have hpos : (updateBest bs s points losses).bestPos[j]? =
+      match ownSlot bs s points losses j with
+      | some pl => if (∃ bl, s.bestLoss[j]? = some bl ∧ pl.2 < bl) ∧ j < s.bestPos.length then some pl.1 else s.bestPos[j]?
+      | none => s.bestPos[j]? := by
+    unfold updateBest ownSlot
+    dsimp only
+    have key := updateLoop_bestPos ({ s with bestPoint := points[argmin losses]? }) 0
+      (((points.drop s.prevStart).take bs).zip ((losses.drop s.prevStart).take bs)) j
+    simp only [Nat.zero_le, if_true, Nat.sub_zero] at key
+    split <;> exact key
+  cases hos : ownSlot bs s points losses j with
+  | none =>
+    left
+    rw [hpos, hloss, hos]
+    exact ⟨rfl, rfl⟩
+  | some pl =>
+    obtain ⟨p, l⟩ := pl
+    obtain ⟨hj, hp, hl⟩ := ownSlot_is_history_row bs s points losses j p l hos
+    rw [hos] at hpos hloss
+    dsimp only at hpos hloss
+    cases hb : s.bestLoss[j]? with
+    | none =>
+      left
+      rw [hpos, hloss, hb]
+      simp
+    | some bl =>
+      have hjl : j < s.bestLoss.length := by
+        rcases Nat.lt_or_ge j s.bestLoss.length with h | h
+        · exact h
+        · simp [List.getElem?_eq_none h] at hb
+      by_cases hlt : l < bl
+      · right
+        refine ⟨p, l, bl, hj, hp, hl, rfl, hlt, ?_, ?_⟩
+        · rw [hpos, if_pos ⟨⟨bl, hb, hlt⟩, by omega⟩]
+        · rw [hloss, hb]; simp [min_eq_right (le_of_lt hlt)]
+      · left
+        constructor
+        · rw [hpos, if_neg]
+          rintro ⟨⟨bl', h1, h2⟩, _⟩
+          rw [hb] at h1; cases h1; exact hlt h2
+        · rw [hloss, hb]; simp [min_eq_left (not_lt.mp hlt)]
+
+/-- **the attractor across samplers is the first lowest-loss point of the whole history**
+(`global_minimum_across_samplers=True`: `_best_point = existing_points[np.argmin(existing_losses)]`) -/
+theorem updateBest_bestPoint_is_first_lowest (bs : Nat) (s : Swarm α β) (points : List (List α)) (losses : List β)
+    (hne : losses ≠ []) (hlen : points.length = losses.length) :
+    ∃ (i : Nat) (p : List α) (l : β), (updateBest bs s points losses).bestPoint = some p ∧ points[i]? = some p ∧ losses[i]? = some l ∧
+      (∀ (j : Nat) (v : β), losses[j]? = some v → l ≤ v) ∧ (∀ (j : Nat) (v : β), j < i → losses[j]? = some v → l < v) := by
+  obtain ⟨rv, h1, h2, h3⟩ := argmin_spec losses hne
+  have hi : argmin losses < points.length := by
+    rw [hlen]
+    rcases Nat.lt_or_ge (argmin losses) losses.length with h | h
+    · exact h
+    · simp [List.getElem?_eq_none h] at h1
+  have hbp : (updateBest bs s points losses).bestPoint = points[argmin losses]? := by
+    unfold updateBest
+    dsimp only
+    have key := (updateLoop_other ({ s with bestPoint := points[argmin losses]? }) 0
+      (((points.drop s.prevStart).take bs).zip ((losses.drop s.prevStart).take bs))).2.2.1
+    split <;> exact key
+  exact ⟨argmin losses, points[argmin losses], rv, by rw [hbp, List.getElem?_eq_getElem hi], List.getElem?_eq_getElem hi, h1, h2, h3⟩
+
+/-- `_update_best` keeps the two personal-best arrays of equal length -/
+theorem updateBest_wf (bs : Nat) (s : Swarm α β) (points : List (List α)) (losses : List β)
+    (hwf : s.bestPos.length = s.bestLoss.length) :
+    (updateBest bs s points losses).bestPos.length = (updateBest bs s points losses).bestLoss.length := by
+  unfold updateBest
+  dsimp only
+  have key := updateLoop_len ({ s with bestPoint := points[argmin losses]? }) 0
+    (((points.drop s.prevStart).take bs).zip ((losses.drop s.prevStart).take bs))
+  split <;> ((try dsimp only); rw [key.1, key.2]; exact hwf)
+
+end Reads
+
+section Reach
+variable {α β : Type} [Field α] [LinearOrder α] [IsStrictOrderedRing α] [LinearOrder β]
+
+/-- one `sample_batch` call: the two draws of the generator and the history handed over -/
+structure Call (α β : Type) where
+  d0 : List (List α)
+  d1 : List (List α)
+  points : List (List α)
+  losses : List β
+
+/-- the life of one sampler object: any sequence of calls -/
+def runCalls (cfg : Cfg α) (half : α) (top : β) (lo hi : List α) : Option (Swarm α β) → List (Call α β) → Option (Swarm α β)
+  | s, [] => s
+  | s, c :: cs => runCalls cfg half top lo hi (some (sampleBatch cfg 0 1 half top lo hi s c.d0 c.d1 c.points c.losses).1) cs
+
+theorem sampleBatch_ginv (cfg : Cfg α) (hbs : 0 < cfg.bs) (half : α) (top : β) (lo hi : List α) (s : Option (Swarm α β))
+    (hs : ∀ sw, s = some sw → GInv sw) (d0 d1 points : List (List α)) (losses : List β) :
+    GInv (sampleBatch cfg 0 1 half top lo hi s d0 d1 points losses).1 := by
+  unfold sampleBatch
+  split
+  · rename_i sw
+    split
+    · exact setUp_ginv cfg.bs hbs half top d0 d1 0 sw.bestPoint
+    · have h0 : GInv sw := hs sw rfl
+      have h1 : GInv (updateBest cfg.bs sw points losses) := by
+        unfold updateBest
+        dsimp only
+        have : GInv (updateLoop ({ sw with bestPoint := points[argmin losses]? }) 0
+            (((points.drop sw.prevStart).take cfg.bs).zip ((losses.drop sw.prevStart).take cfg.bs))) :=
+          updateLoop_ginv _ _ _ h0
+        split <;> exact this
+      exact h1
+  · exact setUp_ginv cfg.bs hbs half top d0 d1 points.length none
+
+/-- **the global-best index points at a smallest personal-best loss in every reachable state** — for every sequence of calls,
+histories (of any length, growing or not), draws and options -/
+theorem pso_global_best_is_argmin (cfg : Cfg α) (hbs : 0 < cfg.bs) (half : α) (top : β) (lo hi : List α)
+    (calls : List (Call α β)) (sw : Swarm α β) (h : runCalls cfg half top lo hi none calls = some sw) : GInv sw := by
+  have H : ∀ (calls : List (Call α β)) (s : Option (Swarm α β)), (∀ t, s = some t → GInv t) →
+      ∀ sw, runCalls cfg half top lo hi s calls = some sw → GInv sw := by
+    intro calls
+    induction calls with
+    | nil => intro s hs sw h; exact hs sw h
+    | cons c cs ih =>
+      intro s hs sw h
+      simp only [runCalls] at h
+      refine ih _ ?_ sw h
+      intro t ht
+      cases ht
+      exact sampleBatch_ginv cfg hbs half top lo hi s hs _ _ _ _
+  exact H calls none (by simp) sw h
+
+/-- in every reachable state the two personal-best arrays have one entry per particle — provided each first draw of a call has
+`batch_size` rows (the contract of `random(size=(batch_size, dims))`), so the hypothesis of
+`updateBest_personal_best_from_own_slot` is met throughout the life of a sampler -/
+theorem pso_personal_best_arrays_aligned (cfg : Cfg α) (half : α) (top : β) (lo hi : List α)
+    (calls : List (Call α β)) (hd : ∀ c ∈ calls, c.d0.length = cfg.bs) (sw : Swarm α β)
+    (h : runCalls cfg half top lo hi none calls = some sw) : sw.bestPos.length = cfg.bs ∧ sw.bestLoss.length = cfg.bs := by
+  have H : ∀ (calls : List (Call α β)), (∀ c ∈ calls, c.d0.length = cfg.bs) → ∀ (s : Option (Swarm α β)),
+      (∀ t, s = some t → t.bestPos.length = cfg.bs ∧ t.bestLoss.length = cfg.bs) →
+      ∀ sw, runCalls cfg half top lo hi s calls = some sw → sw.bestPos.length = cfg.bs ∧ sw.bestLoss.length = cfg.bs := by
+    intro calls
+    induction calls with
+    | nil => intro _ s hs sw h; exact hs sw h
+    | cons c cs ih =>
+      intro hd s hs sw h
+      simp only [runCalls] at h
+      refine ih (fun c' hc' => hd c' (List.mem_cons_of_mem _ hc')) _ ?_ sw h
+      intro t ht
+      cases ht
+      have hc := hd c List.mem_cons_self
+      unfold sampleBatch
+      split
+      · rename_i sw0
+        split
+        · simp [setUp, hc]
+        · have h0 := hs sw0 rfl
+          have hw := updateBest_wf cfg.bs sw0 c.points c.losses (by rw [h0.1, h0.2])
+          have hl : (updateBest cfg.bs sw0 c.points c.losses).bestLoss.length = cfg.bs := by
+            unfold updateBest
+            dsimp only
+            have key := updateLoop_len ({ sw0 with bestPoint := c.points[argmin c.losses]? }) 0
+              (((c.points.drop sw0.prevStart).take cfg.bs).zip ((c.losses.drop sw0.prevStart).take cfg.bs))
+            split <;> ((try dsimp only); rw [key.1]; exact h0.2)
+          simp only [doStep]
+          exact ⟨by rw [hw, hl], hl⟩
+      · simp [setUp, hc]
+  exact H calls hd none (by simp) sw h
+
+/-- **after a step every position lies in the unit cube and the raw proposal within the declared bounds**: for a swarm that has
+started and a non-empty history, whatever the state, the draws and the history -/
+theorem pso_step_in_unit_cube_and_bounds (cfg : Cfg α) (half : α) (top : β) (lo hi : List α) (sw : Swarm α β)
+    (d0 d1 points : List (List α)) (losses : List β) (hne : points.length ≠ 0) (hb : ∀ b ∈ lo.zip hi, b.1 ≤ b.2) :
+    (∀ row ∈ (sampleBatch cfg 0 1 half top lo hi (some sw) d0 d1 points losses).1.pos, ∀ y ∈ row, 0 ≤ y ∧ y ≤ 1) ∧
+    (∀ row ∈ (sampleBatch cfg 0 1 half top lo hi (some sw) d0 d1 points losses).2, ∀ (j : Nat) (v : α), row[j]? = some v →
+        ∃ b, (lo.zip hi)[j]? = some b ∧ b.1 ≤ v ∧ v ≤ b.2) := by
+  have hpos : ∀ row ∈ (doStep cfg 0 1 (updateBest cfg.bs sw points losses) d0 d1).pos, ∀ y ∈ row, 0 ≤ y ∧ y ≤ 1 := by
+    intro row hrow
+    exact mem_zipWith_rows hrow
+  unfold sampleBatch
+  simp only [hne, if_false]
+  refine ⟨hpos, ?_⟩
+  intro row hrow j v hv
+  unfold scale at hrow
+  rw [List.mem_map] at hrow
+  obtain ⟨prow, hprow, rfl⟩ := hrow
+  exact zipWith_scale_between prow (lo.zip hi) (hpos prow hprow) hb j v hv
+
+end Reach
+
+/-! ### non-vacuity: a concrete two-particle swarm over ℚ -/
+section Examples
+/-- two particles, one parameter; the second call reads the two rows the swarm proposed first and improves both personal bests -/
+example :
+    let cfg : Cfg Rat := ⟨2, 1/2, 1/10, 1/10, false⟩
+    let c0 : Call Rat Nat := ⟨[[1/4], [3/4]], [[1/2], [1/2]], [], []⟩
+    let c1 : Call Rat Nat := ⟨[[1/2], [1/2]], [[1/2], [1/2]], [[1/4], [3/4]], [5, 3]⟩
+    (runCalls cfg (1/2) (1000 : Nat) [0] [1] none [c0, c1]).map (fun s => (s.bestLoss, s.gid, s.bestPos)) =
+      some ([5, 3], 1, [[1/4], [3/4]]) := by
+  decide +kernel
+end Examples
+
+end BlackIt.Pso
